@@ -35,7 +35,9 @@ def main():
         'setup_cmd': './check --setup',
         'hooks': hooks,
         'engines': [{'name': 'jv', 'path': '/verif/harness', 'serves_properties': [c['property_id'] for c in checks],
-                     'kind_free_text': 'Rust harness (reference models, invariant monitors, seeded workload generators) driven by the python3 script /verif/check; builds flavours rel/dbg/nofat/asan/tsan/miri/valgrind of the real jiff from /repo'}],
+                     'kind_free_text': 'Rust harness (reference models, invariant monitors, seeded workload generators) driven by the python3 script /verif/check; builds flavours rel/dbg/mon/mondbg/nofat/static/asan/tsan/miri/miri32/valgrind of the real jiff from /repo'},
+                    {'name': 'jvn', 'path': '/verif/harness-nostd', 'serves_properties': ['C11', 'C12', 'C20'],
+                     'kind_free_text': 'the same seeded program built against jiff without and with its std feature (flavours nstd/nstd_std); the recorded per-case results are compared offline by the driver'}],
         'checks': checks,
         'not_applicable': na,
         'notes': 'Technique family: runtime monitoring and sanitizers. Exit 0 held-on-observed, 1 VIOLATION, 2 inconclusive. Known findings: /verif/known_findings.json.',
